@@ -121,7 +121,9 @@ func (pl *lStatePool) New() *lua.LState {
 	}
 
 	getArgs := func(ls *lua.LState) (evalCmd string, args []string) {
-		evalCmd = ls.GetGlobal("EVAL_CMD").String()
+		// Not the EVAL_CMD global: a script can assign to that one and would
+		// pick the locking and permissions of another EVAL variant.
+		evalCmd = luaEvalCmd(ls)
 
 		// Trying to work with unknown number of args.
 		// When we see empty arg we call it enough.
@@ -400,6 +402,19 @@ func ConvertToJSON(val lua.LValue) string {
 	return "Unsupported lua type: " + val.Type().String()
 }
 
+// The EVAL variant a script runs under is kept in the interpreter's
+// registry, which scripts cannot reach.
+const luaEvalCmdKey = "tile38.evalcmd"
+
+func luaSetEvalCmd(ls *lua.LState, cmd lua.LValue) {
+	ls.Get(lua.RegistryIndex).(*lua.LTable).RawSetString(luaEvalCmdKey, cmd)
+}
+
+func luaEvalCmd(ls *lua.LState) string {
+	cmd, _ := ls.Get(lua.RegistryIndex).(*lua.LTable).RawGetString(luaEvalCmdKey).(lua.LString)
+	return string(cmd)
+}
+
 func luaSetRawGlobals(ls *lua.LState, tbl map[string]lua.LValue) {
 	gt := ls.Get(lua.GlobalsIndex).(*lua.LTable)
 	for key, val := range tbl {
@@ -493,6 +508,8 @@ func (s *Server) cmdEvalUnified(scriptIsSha bool, msg *Message) (res resp.Value,
 			"DEADLINE": luaDeadline,
 			"EVAL_CMD": lua.LString(msg.Command()),
 		})
+	luaSetEvalCmd(luaState, lua.LString(msg.Command()))
+	defer luaSetEvalCmd(luaState, lua.LNil)
 	// Clear them again on every way out, including a compile error or an
 	// unknown digest: the interpreter goes back to the pool.
 	defer luaSetRawGlobals(
